@@ -89,7 +89,8 @@ Verdict(r) ==
                \* entries the mapper held before the scan stay, unless the scan finds an enabled instance under the same key
                pre == {<<r.preload[j][1], r.preload[j][2], r.preload[j][3]>> : j \in 1..Len(r.preload)}
                mustKeys == {<<m[1], m[2]>> : m \in must}
-               kept == {p \in pre : <<p[1], p[2]>> \notin mustKeys}
+               \* (with a fault in the scan an instance may have been skipped, so its earlier entry may still be there)
+               kept == {p \in pre : fr.hadfault \/ <<p[1], p[2]>> \notin mustKeys}
                firstOK == n >= 1 /\ Name24(r.ev[1].f) = "103.StartQuiescentMode" /\ DevOf7(r.ev[1].f \div 131072) = <<"dbcast", 0>>
                lastOK == n >= 2 /\ Name24(r.ev[n].f) = "103.StopQuiescentMode" /\ DevOf7(r.ev[n].f \div 131072) = <<"dbcast", 0>>
            IN IF r.out.exc # "none" THEN Fail("raised:" \o r.out.exc, n)
